@@ -277,6 +277,26 @@ func EnumCases() []*Case {
 		}
 		out = append(out, &Case{ID: "enum:info:" + shape, Family: "enums", Coord: "enums|info", P: &Program{Files: []*File{f}}})
 	}
+	// enum names and prefixes that themselves contain UNSPECIFIED
+	for _, shape := range []string{"name-contains-unspecified", "prefix-contains-unspecified", "option-contains-unspecified", "only-explicit-zero"} {
+		f := file("t/v1", "a")
+		var e *Decl
+		switch shape {
+		case "name-contains-unspecified":
+			e = enumD("UnspecifiedReason", "ONE", "TWO")
+		case "prefix-contains-unspecified":
+			e = enumD("Reason", "ONE", "TWO")
+			e.Prefix = "UNSPECIFIED_KIND_"
+		case "option-contains-unspecified":
+			e = enumD("Reason", "ONE", "UNSPECIFIED_TWO", "X_UNSPECIFIED_Y")
+		case "only-explicit-zero":
+			e = enumD("Reason")
+			e.ExplicitUnspecified = true
+		}
+		f.Add(e)
+		f.Add(obj("Foo", &Field{Name: "reason", T: RefTo(e, "")}))
+		out = append(out, &Case{ID: "enum:unspecified-in-names:" + shape, Family: "enums", Coord: "enums|unspecified-in-names", P: &Program{Files: []*File{f}}})
+	}
 	return out
 }
 
@@ -457,6 +477,30 @@ func ServiceCases() []*Case {
 					out = append(out, &Case{ID: fmt.Sprintf("service:%s:%s:%s:%s", verb, p.name, resp, base), Family: "services", Coord: fmt.Sprintf("services|verb=%s|path=%s|response=%s", verb, p.name, resp), P: &Program{Files: []*File{f}}})
 				}
 			}
+		}
+	}
+	// source files whose base names sort before, between and after "service/" and "topic/"
+	for _, n := range []string{"aa", "sz", "user", "widget", "zz"} {
+		for _, what := range []string{"service", "topic", "entity", "service-and-topic"} {
+			f := file("t/v1", n)
+			thing := obj("Thing", fld("x", T(TString)))
+			f.Add(thing)
+			if what == "service" || what == "service-and-topic" {
+				f.Add(&Service{Name: "Thing", BasePath: "/t/v1", Methods: []*Method{{Name: "GetThing", Verb: "GET", Path: "/thing", HasResponse: true, Response: []*Field{fld("thing", RefTo(thing, ""))}}}})
+			}
+			if what == "topic" || what == "service-and-topic" {
+				f.Add(&Topic{Name: "Thing", Kind: "publish", Messages: []*TopicMsg{{Name: "PostThing", Fields: []*Field{fld("thing", RefTo(thing, ""))}}}})
+			}
+			if what == "entity" {
+				f.Add(basicEntity("Foo", []*Field{fld("thing", RefTo(thing, ""))}, []*Field{fld("thing", RefTo(thing, ""))}))
+			}
+			// alone in its package, and next to a file that sorts first and pulls the main file in as a dependency
+			out = append(out, &Case{ID: fmt.Sprintf("service:file-name:%s:%s:alone", n, what), Family: "services", Coord: "services|file-name-order", P: &Program{Files: []*File{f}}})
+			f2 := file("t/v1", n)
+			f2.Decls = f.Decls
+			g := file("t/v1", "m")
+			g.Add(obj("User", fld("thing", RefTo(thing, ""))))
+			out = append(out, &Case{ID: fmt.Sprintf("service:file-name:%s:%s:with-user", n, what), Family: "services", Coord: "services|file-name-order", P: &Program{Files: []*File{f2, g}}})
 		}
 	}
 	// request properties whose name is a prefix of a path parameter's name
@@ -939,6 +983,16 @@ func PipelineCases() []*Case {
 					t = MapOf(t)
 				}
 				m := &Method{Name: "DoThing", Verb: "POST", Path: "/things", HasResponse: true}
+				if pos == "path" {
+					// the same path parameter on a method with a body and on one without
+					for vi, verb := range []string{"POST", "DELETE"} {
+						g := file("t/v1", "a")
+						tt := tv.Make(g)
+						mm := &Method{Name: "DoThing", Verb: verb, Path: "/things/:val", HasResponse: true, Request: []*Field{fld("val", tt), fld("other", T(TString))}}
+						g.Decls = append([]any{&Service{Name: "Thing", BasePath: "/t/v1", Methods: []*Method{mm}}}, g.Decls...)
+						out = append(out, &Case{ID: fmt.Sprintf("pipeline:position:%s:path-with-body:%d", tv.Name, vi), Family: "pipeline", Coord: "pipeline|position=path-with-body|type=" + tv.Name, P: &Program{Files: []*File{g}}})
+					}
+				}
 				switch pos {
 				case "body":
 					m.Request = []*Field{fld("val", t)}
@@ -1002,6 +1056,12 @@ func PipelineCases() []*Case {
 			f := file("t/v1", "a")
 			f.Add(&Service{Name: name, BasePath: "/t/v1", Methods: []*Method{{Name: "DoIt", Verb: "GET", Path: "/odd", HasResponse: true}}})
 			add("odd-name:service:"+name, f)
+		}
+		for _, verb := range []string{"GET", "POST"} { // the name as a path parameter
+			f := file("t/v1", "a")
+			pn := LowerFirst(name)
+			f.Add(&Service{Name: "Odd", BasePath: "/t/v1/:" + pn, Methods: []*Method{{Name: "DoIt", Verb: verb, Path: "/odd/:thingID", Request: []*Field{fld(pn, T(TString)), fld("thingID", T(TKeyID62)), fld("extra", T(TString))}, HasResponse: true}}})
+			add("odd-name:path-parameter:"+name+":"+verb, f)
 		}
 	}
 	// one list rule on one field, at the top level, nested, below a oneof arm and in a recursive item
